@@ -275,27 +275,56 @@ func runC20In(c *Ctx) {
 	if len(regCalls) == 1 {
 		// every registration failure is returned: a Metrics whose collectors are not the registered ones
 		// (e.g. "already registered" swallowed) observes into vectors nobody exports
-		const rReg = "a failed Registerer.Register makes Metrics.Register return an error, whatever the error is: no failure is swallowed or special-cased"
+		const rReg = "no failure of Registerer.Register is dropped: on every path from the error edge the error value is wrapped, joined, stored or returned before the loop goes on or Register returns"
 		rc := regCalls[0].(*ssa.Call)
 		ifi := errNotNilIf(rc, rc)
 		okR := ifi != nil
 		whyR := "the error of r.Register is not tested"
 		if okR {
-			set := exploreBlock(ifi.Block().Succs[0], nil)
-			if len(returnsIn(set)) == 0 {
-				okR, whyR = false, "a registration failure does not end Register"
+			// the failure value, and what counts as keeping it: handing it to anything but a pure test
+			// (errors.Is/As/Unwrap, comparisons, type assertions) — wrapped, joined, stored or returned
+			errV := ifi.Cond.(*ssa.BinOp).X
+			if isNilConst(errV) {
+				errV = ifi.Cond.(*ssa.BinOp).Y
 			}
+			keeps := map[ssa.Instruction]bool{}
+			var follow func(v ssa.Value, depth int)
+			follow = func(v ssa.Value, depth int) {
+				if depth > 4 {
+					return
+				}
+				for _, r := range refs(v) {
+					switch r := r.(type) {
+					case *ssa.Return, *ssa.Store, *ssa.Phi, *ssa.MapUpdate, *ssa.Send:
+						keeps[r] = true
+					case *ssa.ChangeInterface:
+						follow(r, depth+1)
+					case *ssa.MakeInterface:
+						follow(r, depth+1)
+					case *ssa.Call:
+						if cal := r.Call.StaticCallee(); cal != nil && cal.Pkg != nil && cal.Pkg.Pkg.Path() == "errors" {
+							switch cal.Name() {
+							case "Is", "As", "Unwrap":
+								continue
+							}
+						}
+						if r.Call.IsInvoke() && r.Call.Value == v {
+							continue // err.Error() and the like read the failure, they do not keep it
+						}
+						keeps[r] = true
+					}
+				}
+			}
+			follow(errV, 0)
+			set := exploreBlock(ifi.Block().Succs[0], func(i ssa.Instruction) bool { return keeps[i] })
 			for i := range set {
-				if _, isIf := i.(*ssa.If); isIf {
-					okR, whyR = false, "some registration failures are special-cased (the loop goes on although the collector is not the registered one): later observations on this Metrics are not exported"
-				}
-				if i == ssa.Instruction(rc) {
-					okR, whyR = false, "after a registration failure the loop continues"
-				}
-			}
-			for _, r := range returnsIn(set) {
-				if isNilConst(r.(*ssa.Return).Results[0]) {
-					okR, whyR = false, "a registration failure returns nil"
+				switch i := i.(type) {
+				case *ssa.Return:
+					okR, whyR = false, "on some path a registration failure is dropped and Register returns without it (the collector is not the registered one: later observations on this Metrics are not exported)"
+				case *ssa.Call:
+					if i == rc {
+						okR, whyR = false, "on some path a registration failure is dropped and the loop goes on (the collector is not the registered one: later observations on this Metrics are not exported)"
+					}
 				}
 			}
 		}
